@@ -1,26 +1,59 @@
 #!/bin/bash
-# Must-fail / must-pass corpus: each selftest/mutants/<Cxx>-<name>.patch is applied to a scratch
-# copy of /repo (outside /repo and /verif, removed afterwards) and the property's quick check is
-# run against it. "fail" mutants must exit 1 with a VIOLATION line; "pass" mutants (harmless
-# refactors) must exit 0.   usage: ./selftest.sh [Cxx ...]
+# Must-fail / must-pass corpus: each selftest/mutants/<Cxx>-<name>.patch and each
+# seeded/<Cxx>-<name>/patch.diff (property-breaking changes written by independent sub-agents) is
+# applied to a scratch copy of /repo (outside /repo and /verif, removed afterwards) and the
+# property's quick check is run against it. "fail" changes must exit 1 with a VIOLATION line;
+# "pass" changes (harmless refactors) must exit 0.
+#   usage: ./selftest.sh [Cxx ...]        SELFTEST_JOBS=<n> runs n changes at a time (default 3)
 set -uo pipefail
 cd "$(dirname "$0")"
 . ./env.sh
 want="${*:-}"
-rc=0
-for p in selftest/mutants/*.patch; do
-  name=$(basename "$p" .patch); prop="${name%%-*}"
-  if [ -n "$want" ] && ! [[ " $want " == *" $prop "* ]]; then continue; fi
-  expect=$(cat "selftest/mutants/$name.expect" 2>/dev/null || echo fail)
+jobs="${SELFTEST_JOBS:-3}"
+tmpout=$(mktemp -d /var/tmp/verif-selftest.XXXXXX)
+
+run_one() {
+  p="$1"; name="$2"; prop="$3"; expect="$4"
   scratch=$(mktemp -d /var/tmp/verif-scratch.XXXXXX)
   rsync -a --exclude .git /repo/ "$scratch/"
-  if ! (cd "$scratch" && patch -p1 -s < "$VERIF_ROOT/$p"); then echo "SELFTEST $name: patch does not apply"; rc=1; rm -rf "$scratch"; continue; fi
+  if ! (cd "$scratch" && patch -p1 -s < "$VERIF_ROOT/$p" >/dev/null 2>&1); then
+    echo "SELFTEST $name: patch does not apply"; rm -rf "$scratch"; return 1
+  fi
   out=$(VERIF_REPO="$scratch" ./check quick "$prop" -no-evidence 2>&1); code=$?
   rm -rf "$scratch"
   viol=$(echo "$out" | grep -c '^VIOLATION' || true)
   case "$expect" in
-    fail) if [ $code -eq 1 ] && [ "$viol" -gt 0 ]; then echo "SELFTEST $name: ok (caught: $(echo "$out" | grep '^VIOLATION' | head -1 | sed 's/.*obligation=//'))"; else echo "SELFTEST $name: MISSED (exit $code)"; rc=1; fi;;
-    pass) if [ $code -eq 0 ]; then echo "SELFTEST $name: ok (no alarm)"; else echo "SELFTEST $name: FALSE ALARM (exit $code): $(echo "$out" | grep -E '^(VIOLATION|UNDECIDED)' | head -2)"; rc=1; fi;;
+    fail) if [ $code -eq 1 ] && [ "$viol" -gt 0 ]; then echo "SELFTEST $name: ok (caught: $(echo "$out" | grep '^VIOLATION' | head -1 | sed 's/.*obligation=//'))"; return 0; else echo "SELFTEST $name: MISSED (exit $code)"; return 1; fi;;
+    pass) if [ $code -eq 0 ]; then echo "SELFTEST $name: ok (no alarm)"; return 0; else echo "SELFTEST $name: FALSE ALARM (exit $code): $(echo "$out" | grep -E '^(VIOLATION|UNDECIDED)' | head -2)"; return 1; fi;;
   esac
+}
+
+list=()
+for p in selftest/mutants/*.patch; do
+  name=$(basename "$p" .patch); prop="${name%%-*}"
+  if [ -n "$want" ] && ! [[ " $want " == *" $prop "* ]]; then continue; fi
+  expect=$(cat "selftest/mutants/$name.expect" 2>/dev/null || echo fail)
+  list+=("$p|$name|$prop|$expect")
 done
+for d in seeded/*/; do
+  name=$(basename "$d"); prop="${name%%-*}"
+  [ -f "$d/patch.diff" ] || continue
+  if [ -n "$want" ] && ! [[ " $want " == *" $prop "* ]]; then continue; fi
+  list+=("seeded/$name/patch.diff|seed:$name|$prop|fail")
+done
+
+n=0
+for item in "${list[@]}"; do
+  IFS='|' read -r p name prop expect <<< "$item"
+  ( run_one "$p" "$name" "$prop" "$expect" > "$tmpout/$n.out" 2>&1; echo $? > "$tmpout/$n.rc" ) &
+  n=$((n+1))
+  while [ "$(jobs -r | wc -l)" -ge "$jobs" ]; do sleep 0.5; done
+done
+wait
+rc=0
+for i in $(seq 0 $((n-1))); do
+  cat "$tmpout/$i.out"
+  [ "$(cat "$tmpout/$i.rc" 2>/dev/null || echo 1)" = "0" ] || rc=1
+done
+rm -rf "$tmpout"
 exit $rc
